@@ -18,8 +18,19 @@ def main():
         beats = rng.choice([0, 0, 1, 3])
         s = dict(s, poke=rng.random() < 0.7)   # the telemetry bridge hands metric facets to the emitter during and after the run
         race = rng.random() < 0.5
-        obs = cl.run_script(s, with_lineage=True, beats=beats, race=race, slow=race and rng.random() < 0.3)
+        late = not race and rng.random() < 0.3
+        obs = cl.run_script(s, with_lineage=True, beats=beats, race=race, slow=race and rng.random() < 0.3, late=late)
         cl.life_oracle(run, s, obs, {'C18'})
+        if not race and not late and rng.random() < 0.25:
+            # a second run of the same process goes through the same emitter: its history stands on its own, under its own run id
+            s2 = dict(cl.gen_script(rng), poke=rng.random() < 0.5)
+            obs2 = cl.run_script(s2, with_lineage=True, beats=rng.choice([1, 2]), reuse=obs['emitter'])
+            cl.life_oracle(run, s2, obs2, {'C18'})
+            ids1, ids2 = {i for _, i in obs['events']}, {i for _, i in obs2['events']}
+            run.count('lineage:second-run')
+            if ids1 & ids2:
+                run.violation('lineage-run-id-reused %s' % cl.script_lit(s2), 'two runs of one process share a run id',
+                              dict(first=s, second=s2, events1=obs['events'], events2=obs2['events']))
         ev = [e for e, _ in obs['events']]
         run.seen(('lin', cl.script_lit(s), beats), nontrivial=bool(ev))
         run.count('lineage:%s' % (ev[-1] if ev else 'no-events'))
@@ -39,11 +50,11 @@ def main():
     run.samples.append(dict(family='history', script=cases[3][2]['script'], events=cases[3][2]['events']))
     run.rule = ('scripted Filter subclass under the real Filter.run with a real OpenFilterLineage whose client is a capturing fake: every way a '
                 'run can end (exit() / Exception / propagated error / KeyboardInterrupt at every lifecycle stage, stop event) as single faults '
-                'under all policies plus random multi-fault scripts, in 70% of the runs with the telemetry bridge calling update_heartbeat_lineage calls during the loop and after the run, with 0-3 forced heartbeat passes (run shorter/longer than the interval); '
+                'under all policies plus random multi-fault scripts, in 70% of the runs with the telemetry bridge calling update_heartbeat_lineage calls during the loop and after the run, with 0-3 forced heartbeat passes (run shorter/longer than the interval), a heartbeat thread that is slow to get going, and second runs through the same emitter; '
                 'non-trivial = at least one event emitted; distinct by hash of script and heartbeat count')
     run.partial = ['the interleaving of the real heartbeat thread with the main thread is whatever the OS scheduler does in each run (the theorem '
                    'quantifies over all interleavings at action granularity; pre-emption inside one _emit_event call is excluded by the emitter lock)',
-                   'an emitter shared by several Filter instances of one process (Filter.emitter is a class attribute) is outside the model: one run per emitter']
+                   'an emitter shared by several Filter instances of one process at the same time (Filter.emitter is a class attribute) is outside the model; consecutive runs through one emitter are exercised (each judged as a run of its own)']
     run.assumptions = ['OPENLINEAGE client emit() is synchronous and does not raise (the fake client)']
     sys.exit(run.finish())
 
